@@ -251,3 +251,96 @@ Fixpoint keep_lines (ig : option (list pstr)) (lines : list tok) : option (list 
       end
   | TStr _ :: _ => None
   end.
+
+(* ---- sessions that already hold objects: a statement re-declares what the statements `world` describe ---- *)
+Definition opt_str_eqb (a b : option pstr) : bool :=
+  match a, b with Some x, Some y => str_eqb x y | None, None => true | _, _ => false end.
+Definition fl_eqb (a b : fl) : bool := Z.eqb (fst a) (fst b) && Z.eqb (snd a) (snd b).
+Definition opt_fl_eqb (a b : option fl) : bool :=
+  match a, b with Some x, Some y => fl_eqb x y | None, None => true | _, _ => false end.
+(* concentration triples whose mode and unit are plain strings *)
+Definition conc_eqb (a b : conc) : bool :=
+  match a, b with
+  | (TStr m, f, TStr u), (TStr m0, f0, TStr u0) => str_eqb m m0 && fl_eqb f f0 && str_eqb u u0
+  | _, _ => false
+  end.
+Definition entry_eqb (a b : pstr * (list pstr * list chr)) : bool :=
+  str_eqb (fst a) (fst b) && list_eqb str_eqb (fst (snd a)) (fst (snd b)) && list_eqb N.eqb (snd (snd a)) (snd (snd b)).
+Definition sig2_eqb (a b : option (key * pstr)) : bool :=
+  match a, b with
+  | Some (k1, n1), Some (k2, n2) => key_eqb k1 k2 && str_eqb n1 n2
+  | _, _ => false
+  end.
+
+Definition foundb (world : list stmt) (s : stmt) : bool :=
+  match s with
+  | SDl x l => existsb (fun d : pstr * Z => str_eqb x (fst d) && Z.eqb l (snd d)) (decl_doms world)
+  | SSl x sq chk =>
+      existsb (fun s0 => match s0 with SSl x0 sq0 _ => str_eqb x x0 && str_eqb sq sq0 | _ => false end) world &&
+      match chk with Some n => Z.eqb n (Z.of_nat (length sq)) | None => true end
+  | SComp n ds =>
+      existsb (fun d : pstr * list pstr => str_eqb n (fst d) && list_eqb str_eqb ds (snd d)) (decl_strands world)
+  | SKer n names sst conc =>
+      match expand_ker world names sst with
+      | Some x =>
+          existsb (entry_eqb (n, x)) (decl_cplx world) &&
+          match conc with
+          | None => true
+          | Some c => existsb (fun s0 => match s0 with
+                                         | SKer n0 _ _ (Some c0) => str_eqb n n0 && conc_eqb c c0
+                                         | _ => false
+                                         end) world
+          end
+      | None => false
+      end
+  | SSC n ss sst =>
+      forallb (fun x => mem_str x (map fst (decl_strands world))) ss &&
+      match ssc_names world ss with
+      | Some names => Nat.eqb (length names) (length (no_space sst)) && existsb (entry_eqb (n, (names, no_space sst))) (decl_cplx world)
+      | None => false
+      end
+  | SMac n xs =>
+      mem_str n xs && existsb (fun d : pstr * list pstr => str_eqb n (fst d) && list_eqb str_eqb xs (snd d)) (decl_macs world)
+  | SRxn ri =>
+      is_some (ri_rate ri) && nonempty (ri_reactants ri) &&
+      forallb (fun x => mem_str x (mdecl (is_cond (ri_type ri)) world)) (ri_reactants ri) &&
+      forallb (fun x => mem_str x (mdecl (is_cond (ri_type ri)) world)) (ri_products ri) &&
+      existsb (fun ri0 => sig2_eqb (rxn_sig world ri0) (rxn_sig world ri) && opt_fl_eqb (ri_rate ri0) (ri_rate ri) &&
+                          opt_str_eqb (ri_units ri0) (ri_units ri)) (decl_rxns world)
+  | SOther => false
+  end.
+
+(* a kernel statement that re-declares a complex with another concentration: the description of the session
+   with the concentration of that complex replaced (complexes declared in strand notation have none) *)
+Definition set_conc_stmt (n : pstr) (c : conc) (s : stmt) : stmt :=
+  match s with
+  | SKer n0 names sst _ => if str_eqb n0 n then SKer n0 names sst (Some c) else s
+  | _ => s
+  end.
+Definition refound (world : list stmt) (s : stmt) : option (list stmt) :=
+  match s with
+  | SKer n names sst (Some c) =>
+      match expand_ker world names sst with
+      | Some x =>
+          if existsb (entry_eqb (n, x)) (decl_cplx world) &&
+             negb (existsb (fun s0 => match s0 with SSC n0 _ _ => str_eqb n0 n | _ => false end) world)
+          then Some (map (set_conc_stmt n c) world) else None
+      | None => None
+      end
+  | _ => None
+  end.
+
+(* the statements that describe the session after the document: a statement is returned as it is, re-declares
+   (foundb; refound when it sets another concentration) or is new and admissible (admb); None when a statement
+   is none of these *)
+Fixpoint session_from (world : list stmt) (ss : list stmt) : option (list stmt) :=
+  match ss with
+  | [] => Some world
+  | SOther :: rest => session_from world rest
+  | s :: rest =>
+      if foundb world s then session_from world rest
+      else match refound world s with
+           | Some w => session_from w rest
+           | None => if admb world s then session_from (world ++ [s]) rest else None
+           end
+  end.
